@@ -224,7 +224,23 @@ def widths(env, g, stat):
             env.claim(ref2 < 1e-9, "swe NaN only for a (numerically) negative radicand")
         elif env.sym:
             o = S.toz(out)
-            env.claim(z3.Or(z3.And(o >= S.toz(0.001), _absle(o * o - S.toz(ref2), 1e-9)), z3.And(o == 1, S.toz(ref2) < S.toz(0.001**2 + 1e-9))), "swe")
+            rad = [r for r, y in S.ctx().calls["sqrt"] if isinstance(out, Sym) and y.eq(out.e)]
+            if rad:
+                # the returned value is a logged square root: compare its radicand (a rational function of the bins,
+                # no root involved) with the formula, and the value with the 0.001 floor
+                env.claim(o >= S.toz(0.001), "swe below 0.001 is replaced by 1")
+                env.close(Sym(rad[0]), ref2, "swe^2 = 1 - m2^2/(m0 m4)", abs_=1e-9)
+            else:
+                # the value was replaced (by 1): the one logged root is the value that fell below the floor
+                roots = S.ctx().calls["sqrt"]
+                env.claim(not isinstance(out, Sym) and float(out) == 1.0, "swe replaced by exactly 1")
+                if len(roots) == 1:
+                    r_, y_ = roots[0]
+                    env.close(Sym(r_), ref2, "swe^2 = 1 - m2^2/(m0 m4)", abs_=1e-9)
+                    env.claim(S.SymBool(r_ < S.toz(0.001**2 + 1e-9)), "swe replaced by 1 only below the floor of 0.001")
+                else:
+                    # no root was taken symbolically (radicand folded to a constant or negative): state it on the formula
+                    env.claim(S.SymBool(S.toz(ref2) < S.toz(0.001**2 + 1e-9)), "swe replaced by 1 only below the floor of 0.001")
         else:
             env.claim((out >= 0.001 and abs(out * out - ref2) < 1e-5) or (out == 1 and ref2 < 0.001**2 + 1e-6), "swe", {"impl": float(out), "ref2": float(ref2)})
     elif stat == "sw":
